@@ -32,8 +32,9 @@ TECHNIQUE = ("exhaustive module-pair generation (macro sets x export lists x req
 LEVEL_TEXT = ("Every generated pair of modules (macro module A, requiring module B, all documented require shapes) is imported from source, from "
               "cached bytecode, after touching either file, with and without A staying loaded, in every order up to k steps; after every import "
               "the module values, the macro table and the set of files that had to be compiled are compared with the reference. Exhaustive within the bounds.")
-RULE = ("pairs enumerated as (A variant, shape), all distinct; each pair is run through every maximal history over {I, IB, TB, TA} with the oracle "
-        "after every step (so every history of length <= k is compared once); 'states' = distinct (pair, A bytecode valid?, B bytecode valid?, A still "
+RULE = ("pairs enumerated as (A variant, shape), all distinct; each pair is run through every maximal history over {I, IB, TB, TA} (first step "
+        "restricted as stated in the bounds: on fresh files IB is the same operation as I) with the oracle after every step (so every such "
+        "history of length <= k is compared once); 'states' = distinct (pair, A bytecode valid?, B bytecode valid?, A still "
         "loaded?) configurations reached; non-trivial = the shape brings at least one macro into B and the history loads B from bytecode at least once")
 ASSUMPTIONS = [
     "whether loading B from bytecode imports A at all is not documented (a B that received no macros has no reason to): observed, and A is required "
@@ -46,10 +47,12 @@ ASSUMPTIONS = [
 ]
 
 BOUNDS = {
-    "quick": dict(k=2),
-    "thorough": dict(k=3),
+    # first: operations tried as the FIRST step (on fresh files with nothing loaded IB is literally the same operation as I;
+    # TB/TA differ from I only by the source mtime the first bytecode file records)
+    "quick": dict(k=2, first=["I"]),
+    "thorough": dict(k=3, first=["I", "TB", "TA"]),
 }
-TIME_CAP = {"quick": 900, "thorough": 3000}
+TIME_CAP = {"quick": 1500, "thorough": 5400}
 
 
 def _sub_a():
@@ -62,7 +65,7 @@ def bounds(tier):
     from mc.ref import rc_reqmodel as Q
     b = BOUNDS[tier]
     return {"A_variants": [[ms, ex, rd] for ms, ex, rd in Q.a_variants()], "shapes": Q.SHAPES, "pairs": len(Q.pairs()),
-            "history_ops": Q.HIST_OPS, "max_history": b["k"], "fresh_process_leg": "one pair per shape, 2 processes each",
+            "history_ops": Q.HIST_OPS, "max_history": b["k"], "first_step_in": b["first"], "fresh_process_leg": "one pair per shape, 2 processes each",
             "extension_names": Q.EXT_NAMES}
 
 
@@ -228,7 +231,7 @@ def judge_pair(pair, history, recs):
             wrong = sorted(k for k in got if k in exp_table and got[k] != exp_table[k])
             cls = "missing" if missing else "extra" if extra else "wrong-macro"
             problems.append(dict(kind="required-macros-differ-from-documented-set", sig="macros:%s:%s:%s" % (pair.shape, where["load"], cls), diff=cls,
-                                 names=",".join(missing or extra or wrong),
+                                 names=",".join(missing or extra or wrong).replace(pair.a_name, "A"),
                                  detail="B._hy_macros = %r, documented %r (unspecified, accepted if present: %r)\n%s" % (got, exp_table, pair.maybe, ctx), **where))
             break
         if first_table is None:
@@ -249,20 +252,20 @@ def judge_pair(pair, history, recs):
     return problems
 
 
-def _maximal(k):
+def _maximal(tier):
     import itertools
     from mc.ref import rc_reqmodel as Q
-    return [list(h) for h in itertools.product(list(Q.HIST_OPS), repeat=k)]
+    b = BOUNDS[tier]
+    return [[f] + list(h) for f in b["first"] for h in itertools.product(list(Q.HIST_OPS), repeat=b["k"] - 1)]
 
 
 def _pair_shard(acc, tier, ai, shape):
     from mc.ref import rc_reqmodel as Q
-    k = BOUNDS[tier]["k"]
     seen = set()
     cfgs = set()
     any_bc = False
     pair = None
-    for h in _maximal(k):
+    for h in _maximal(tier):
         recs, pair = run_pair_history(ai, shape, h)
         acc.evaluations += len(recs)
         problems = judge_pair(pair, h, recs)
